@@ -313,8 +313,8 @@ def main():
         c0, c1 = c.values
         assert isinstance(c0.ops[0], ast.In) and ast.unparse(c0.left) == "data[2:4]"
         short = [e.value for e in c0.comparators[0].elts]
-        assert isinstance(c1.ops[0], ast.LtE) and ast.unparse(c1.left) == "len(data)"
-        maxlen = c1.comparators[0].value
+        assert isinstance(c1.ops[0], (ast.LtE, ast.Lt)) and ast.unparse(c1.left) == "len(data)"
+        maxlen = c1.comparators[0].value - (1 if isinstance(c1.ops[0], ast.Lt) else 0)
         orelse_ok = True
         gim = (poll_len, always, short, maxlen)
     except Exception:
